@@ -364,6 +364,97 @@ def exec (cfg : Cfg) (H : Hashes) (s : State) : List Op → State × List Obs
     let rest := exec cfg H r.1 ops
     (rest.1, ⟨op, r.2⟩ :: rest.2)
 
+/-! ### the phases of one request — overlapping requests
+
+  `run` is not atomic in the code: between its cache look-up and its cache store it calls the two agents, and
+  while an agent is busy another request may run on the same loop (the agent itself consults the loop —
+  re-entrancy — or a second thread does).  At the granularity of agent calls a request is the sequence
+
+      look-up (circuit check, cache)  ·  executor consulted  ·  assessor consulted  ·  finish (gate, breaker, store)
+
+  with an agent exception cutting it short (`agentRaised`).  Every phase reads the loop's state afresh (the code
+  parks nothing about the request in `self` between the phases); what a request carries from phase to phase are
+  its own locals: the prompt and the two verdicts.  A history of overlapping requests is a list of phases in any
+  order (`PhaseOp`, `execPhases`); the atomic `run` is the special case in which the phases of one request are
+  consecutive (`run_eq_phases`, Lemmas/CfflPhase.lean). -/
+
+/-- `run` up to "Create signal": circuit check, then cache look-up.  `none`: the agents have to be consulted. -/
+def lookupCache (cfg : Cfg) (H : Hashes) (s : State) (p : Prompt) : State × Option Out :=
+  if cfg.cacheOn then
+    if p.enc then
+      match checkCache cfg H s p with
+      | (s1, some r) => (s1, some ⟨.cacheHit, some { r with cached := true }⟩)
+      | (s1, none) => (s1, none)
+    else (s, some ⟨.raised, none⟩)
+  else (s, none)
+
+def lookup (cfg : Cfg) (H : Hashes) (s : State) (p : Prompt) : State × Option Out :=
+  if cfg.breakerOn then
+    match checkCircuit cfg s.now s.br with
+    | (b1, false) => ({ s with br := b1 }, some ⟨.circuitOpen, some circuitOpenResult⟩)
+    | (b1, true) => lookupCache cfg H { s with br := b1 } p
+  else lookupCache cfg H s p
+
+/-- the `except` handler of the agent calls -/
+def agentRaised (cfg : Cfg) (s : State) : State × Out :=
+  ({ s with br := recordFailure cfg s.now s.br }, ⟨.agentExc, some errorResult⟩)
+
+/-- `run` from "Apply gate logic" on, for the request with prompt `p` whose agents answered `z` and `y`:
+    gate, breaker update, cache store — all against the state the loop is in NOW. -/
+def finish (cfg : Cfg) (H : Hashes) (s : State) (p : Prompt) (z y : Cls) : State × Out :=
+  if p.enc then
+    let r := gateResult H cfg.gate p z y
+    let ev := classifyRun r.success r.blocked z y
+    let s3 := { s with br := applyEvent cfg s.now s.br ev }
+    if cfg.cacheOn then
+      ({ s3 with cache := cacheStore (H.md5 p.id) r s3.now s3.cache }, ⟨.gated ev, some r⟩)
+    else (s3, ⟨.gated ev, some r⟩)
+  else (s, ⟨.raised, none⟩)
+
+inductive PhaseOp where
+  | lookup (p : Prompt)                 -- a request enters
+  | execCall                            -- some pending request consults the executor
+  | assessCall                          -- some pending request consults the assessor
+  | agentRaised                         -- the agent a pending request consulted raised
+  | finish (p : Prompt) (z y : Cls)     -- the pending request for `p` got the verdicts `z`, `y`
+  | adv (d : Nat)
+  | resetcb
+  | clearcache
+  deriving Repr, DecidableEq
+
+/-- observation of one phase: the reply, if the request is answered at this phase -/
+structure PhaseObs where
+  op : PhaseOp
+  out : Option Out
+  deriving Repr, DecidableEq
+
+def phaseStep (cfg : Cfg) (H : Hashes) (s : State) : PhaseOp → State × Option Out
+  | .lookup p => lookup cfg H s p
+  | .execCall => (callExecutor cfg s, none)
+  | .assessCall => (callAssessor cfg s, none)
+  | .agentRaised => ((agentRaised cfg s).1, some (agentRaised cfg s).2)
+  | .finish p z y => ((finish cfg H s p z y).1, some (finish cfg H s p z y).2)
+  | .adv d => ({ s with now := s.now + d }, none)
+  | .resetcb => ({ s with br := resetBreaker s.br }, none)
+  | .clearcache => ({ s with cache := [] }, none)
+
+def execPhases (cfg : Cfg) (H : Hashes) (s : State) : List PhaseOp → State × List PhaseObs
+  | [] => (s, [])
+  | op :: ops =>
+    let r := phaseStep cfg H s op
+    let rest := execPhases cfg H r.1 ops
+    (rest.1, ⟨op, r.2⟩ :: rest.2)
+
+/-- the phases the atomic `run` goes through from state `s` (the look-up decides whether agents are asked) -/
+def phasesOfRun (cfg : Cfg) (H : Hashes) (s : State) (p : Prompt) (zr yr : Resp) : List PhaseOp :=
+  match (lookup cfg H s p).2 with
+  | some _ => [.lookup p]
+  | none =>
+    match zr, yr with
+    | .exc, _ => [.lookup p, .execCall, .agentRaised]
+    | .ret _, .exc => [.lookup p, .execCall, .assessCall, .agentRaised]
+    | .ret z, .ret y => [.lookup p, .execCall, .assessCall, .finish p z y]
+
 def idHashes : Hashes := ⟨id, id⟩
 
 /-- What the source translator (harness/vf/extract/py2lean_breaker.py) emits for a method that left its subset:
